@@ -25,6 +25,7 @@ func checkC08(r *Run) {
 	r.cur = "B"
 	ruleAlphabet(r, pb)
 	ruleWidth(r, pb)
+	ruleA18(r, pb) // the encoder's argument widths and headers are what the decoder's reader assumes
 	ruleA6(r, pb, []string{cborRel})
 	r.cur = "J"
 	ruleA6(r, pj, []string{"internal/json"})
@@ -111,6 +112,50 @@ func ruleAgnostic(r *Run, pj, pb *Prog) {
 				r.cur = pr.cfg
 				r.Ob("AGNOSTIC", "method:"+FnName(f), pr.p.Pos(f.Pos()), false, true, "front-end method "+FnName(f)+" is defined in "+file+", which is compiled in only one of the two build configurations: the builds no longer run the same front-end code")
 			}
+		}
+	}
+	// per-build hooks: package-level functions defined in configuration-specific files and called
+	// from the shared front-end. Frozen table (one reason each); anything else means the two
+	// builds run different front-end code for some field.
+	hooks := map[string]string{
+		"appendJSON":             "RawJSON channel: verbatim in JSON, tag 262 in CBOR",
+		"appendCBOR":             "RawCBOR channel: data URL in JSON, tag 63 in CBOR",
+		"decodeIfBinaryToString": "decoder binding used by syslog",
+		"decodeObjectToStr":      "decoder binding (tests)",
+		"decodeIfBinaryToBytes":  "decoder binding used by ConsoleWriter",
+	}
+	for _, pr := range []struct {
+		p      *Prog
+		common map[string]bool
+		cfg    string
+	}{{pj, inB, "J"}, {pb, inJ, "B"}} {
+		for _, f := range pr.p.ModFns {
+			if pkgRel(f) != "" {
+				continue
+			}
+			file := pr.p.Fset.Position(f.Pos()).Filename
+			file = file[strings.LastIndex(file, "/")+1:]
+			if !pr.common[file] {
+				continue // caller must be in a common file
+			}
+			eachInstr(f, func(b *ssa.BasicBlock, i int, in ssa.Instruction) {
+				cc := callCommon(in)
+				if cc == nil {
+					return
+				}
+				sc := staticCallee(cc)
+				if sc == nil || pkgRel(sc) != "" || sc.Signature.Recv() != nil || sc.Parent() != nil {
+					return
+				}
+				cfile := pr.p.Fset.Position(sc.Pos()).Filename
+				cfile = cfile[strings.LastIndex(cfile, "/")+1:]
+				if pr.common[cfile] || cfile == "" {
+					return
+				}
+				why, ok := hooks[sc.Name()]
+				r.cur = pr.cfg
+				r.Ob("AGNOSTIC", "hook:"+sc.Name()+"←"+FnName(f), pr.p.Pos(in.Pos()), ok, true, tern(ok, "per-build hook "+sc.Name()+": "+why, "the shared front-end ("+FnName(f)+") calls "+sc.Name()+", a function defined separately for each build in "+cfile+" and not one of the documented per-build channels: the two builds can encode this field differently"))
+			})
 		}
 	}
 	// the two encoder types offer the same methods with identical signatures
